@@ -208,7 +208,20 @@ func (l *legStats) flush() {
 	defer l.mu.Unlock()
 	b, _ := json.Marshal(l)
 	_ = os.MkdirAll(out, 0o755)
-	_ = os.WriteFile(filepath.Join(out, fmt.Sprintf("%s.%s.stats.json", l.Leg, shard())), b, 0o644)
+	label := shard()
+	if strings.HasPrefix(l.Shard, "pid") {
+		label = l.Shard // native fuzzing: coordinator and workers are separate processes with one VERIF_SHARD
+	}
+	writeAtomic(filepath.Join(out, fmt.Sprintf("%s.%s.stats.json", l.Leg, label)), b)
+}
+
+// writeAtomic: readers (the driver) never see a partially written file.
+func writeAtomic(path string, b []byte) {
+	tmp := fmt.Sprintf("%s.tmp%d", path, os.Getpid())
+	if err := os.WriteFile(tmp, b, 0o644); err != nil {
+		return
+	}
+	_ = os.Rename(tmp, path)
 }
 
 func flushAll() {
@@ -575,7 +588,7 @@ func (l *legStats) flushAs(shardLabel string) {
 	defer l.mu.Unlock()
 	b, _ := json.Marshal(l)
 	_ = os.MkdirAll(out, 0o755)
-	_ = os.WriteFile(filepath.Join(out, fmt.Sprintf("%s.%s.stats.json", l.Leg, shardLabel)), b, 0o644)
+	writeAtomic(filepath.Join(out, fmt.Sprintf("%s.%s.stats.json", l.Leg, shardLabel)), b)
 }
 
 // MakeFuzz turns a rapid property into a native fuzz target body (rapid.MakeFuzz) with statistics and a JSON
